@@ -50,7 +50,24 @@ def same(a, b):
     return num(a) == num(b)
 
 
+def derived_scalars(obj):
+    """plain numeric attributes a constructor derives from the configuration (e.g. the cached `decay = exp(-dt / tc)` of
+    the trace reducers): a setter must leave them as a fresh component of the new configuration has them"""
+    out = {}
+    for k, v in obj.fields.items():
+        if k.startswith("_") or isinstance(v, bool):
+            continue
+        if isinstance(v, (int, float)) or (isinstance(v, SV) and not v.is_bool):
+            out[k] = v
+    return out
+
+
 def compare(c, A, B, label):
+    da, db = derived_scalars(A), derived_scalars(B)
+    if da or db:
+        c.ensure(f"{label}:same_derived_attributes", sorted(da) == sorted(db))
+        conj = [same(da[k], db[k]) for k in da if k in db]
+        c.ensure(f"{label}:derived_attributes_as_fresh", z3.And(*[x if not isinstance(x, bool) else z3.BoolVal(x) for x in conj]) if conj else True)
     fa, fb = cfg_fields(A), cfg_fields(B)
     c.ensure(f"{label}:same_registered_fields", sorted(fa) == sorted(fb))
     conj = [same(fa[k], fb[k]) for k in fa if k in fb]
@@ -99,7 +116,8 @@ for _s in SYN:
 
 
 def _mk_reducer(cls, file, args, kwargs):
-    @contract(P, f"{cls}[setters_vs_constructor]", [(RB, "RecordReducer.dt@setter"), (RB, "RecordReducer.duration@setter"), (RB, "RecordReducer.inplace@setter"), (RB, "RecordReducer.add_record")], tags=("config",))
+    own = [(file, f"{cls}.dt@setter"), (file, f"{cls}.__init__")] if file == RT else []
+    @contract(P, f"{cls}[setters_vs_constructor]", [(RB, "RecordReducer.dt@setter"), (RB, "RecordReducer.duration@setter"), (RB, "RecordReducer.inplace@setter"), (RB, "RecordReducer.add_record")] + own, tags=("config",))
     def red(c, cls=cls):
         dt0, du0, dt1, du1 = c.real("dt0"), c.real("dur0"), c.real("dt1"), c.real("dur1")
         c.require(dt0 > 0, dt1 > 0, du0 >= 0, du1 >= 0)
@@ -124,6 +142,11 @@ def _mk_reducer(cls, file, args, kwargs):
 
 _mk_reducer("PassthroughReducer", RG, (), {})
 _mk_reducer("CumulativeTraceReducer", RT, (3.0, 0.5, True), {})
+_mk_reducer("NearestTraceReducer", RT, (3.0, 0.5, True), {})
+_mk_reducer("ScaledNearestTraceReducer", RT, (3.0, 0.5, 2.0, Model(lambda it, x: x, "criterion")), {})
+_mk_reducer("ScaledCumulativeTraceReducer", RT, (3.0, 0.5, 2.0, Model(lambda it, x: x, "criterion")), {})
+_mk_reducer("ConditionalNearestTraceReducer", RT, (3.0, 0.5, 2.0), {})
+_mk_reducer("ConditionalCumulativeTraceReducer", RT, (3.0, 0.5, 2.0), {})
 _mk_reducer("EventReducer", RG, (Model(lambda it, x: x, "criterion"),), {})
 
 
@@ -209,6 +232,7 @@ ASSUMPTIONS = [
 ]
 
 MUTANTS = [
+    dict(file=RT, func="CumulativeTraceReducer.dt@setter", old="        FoldReducer.dt.fset(self, value)\n        self.decay = exp(-self.dt / self.time_constant)", new="        self.decay = exp(-self.dt / self.time_constant)\n        FoldReducer.dt.fset(self, value)", contracts=["CumulativeTraceReducer[setters_vs_constructor]"], name="seed C14e: cached decay computed before the new step time is stored"),
     dict(file=NB, func="InfernoNeuron.batchsz@setter", old="        BatchShapeMixin.batchsz.fset(self, value)\n        self.clear()", new="        self.clear()\n        BatchShapeMixin.batchsz.fset(self, value)", contracts=["LIF[setters_vs_constructor]"], name="seed C11d: neuron state cleared BEFORE the batch resize (new samples start at 0 V instead of rest)"),
     dict(file=NB, func="Connection.synapse@setter", old="self.synapse_ = value", new="self.synapses = value", contracts=["Connection[setters_delegate_to_the_synapse]"], name="D13 regression"),
     dict(file=NB, func="Connection.batchsz@setter", old="self.synapse.batchsz = value", new="pass", contracts=["Connection[setters_delegate_to_the_synapse]"]),
